@@ -128,6 +128,47 @@ func c12whenCase() (*dataCase, error) {
 	return &dataCase{kids, c12whenYang, m}, nil
 }
 
+// directed: an edit the library refuses after the target made a container that a condition then hides - every
+// callback of that run failing in turn, the delete that takes the container away again included
+func c12refusedProbe(c *core.Ctx) {
+	dc, err := c12whenCase()
+	if err != nil {
+		return
+	}
+	one, x := "1", "x"
+	c6 := gen.EmptyBody(dc.kids[2].Kids[2].Kids)
+	c6[0], c6[1] = &gen.DNode{Leaf: &one}, &gen.DNode{Leaf: &x}
+	c3 := gen.EmptyBody(dc.kids[2].Kids)
+	c3[2] = &gen.DNode{Present: true, Kids: c6}
+	src0 := gen.EmptyBody(dc.kids)
+	src0[2] = &gen.DNode{Present: true, Kids: c3}
+	for _, op := range []string{"upsert", "insert"} {
+		runOnce := func(failAt int) (*refstore.Recorder, error) {
+			rec := &refstore.Recorder{FailAt: failAt}
+			b := node.NewBrowser(dc.m, refstore.NewBody(rec, dc.kids, gen.EmptyBody(dc.kids), "tgt:"))
+			return rec, safeDo(func() error {
+				return applyEdit(b.Root(), op, refstore.NewBody(rec, dc.kids, gen.Clone(src0), "src:"))
+			})
+		}
+		free, ferr := runOnce(0)
+		c.Count("refused_probe", op+" "+errClass(ferr))
+		for k := 1; k <= len(free.Events); k++ {
+			rec, err := runOnce(k)
+			c.Evaluations++
+			c.Distinct(fmt.Sprintf("refusedprobe %s %d", op, k))
+			var inj *refstore.InjectedError
+			if rec.Failed && (err == nil || !errors.As(err, &inj) || inj.K != k) {
+				what := "?"
+				if k-1 < len(rec.Events) {
+					what = rec.Events[k-1].String()
+				}
+				c.Violation(core.Replay{Kind: "property-failure", Class: "refused-error-not-wrapped-" + op, Summary: fmt.Sprintf("%s of a container whose condition is false once it is made (%v), with callback %d (%s) failing: the returned error does not wrap the callback's error (%v)", op, ferr, k, what, err),
+					Input: map[string]interface{}{"yang": dc.yang, "op": op, "source": gen.Canon(dc.kids, src0, false), "fail_at": k, "failing_event": what, "returned_error": fmt.Sprint(err), "trace": decodeEvents(c12events(rec))}})
+			}
+		}
+	}
+}
+
 // directed: edits that have to create a node whose condition cannot hold yet - whatever they return, they return
 func c12whenProbe(c *core.Ctx) {
 	dc, err := c12whenCase()
@@ -165,7 +206,8 @@ func c12whenProbe(c *core.Ctx) {
 
 func C12(c *core.Ctx) {
 	c12whenProbe(c)
-	c.Rule = "edit scenarios (strategy upsert/insert/update through the From and the Into entry points, replace and delete; generated schema and trees; entry point root / container / list entry so that the edit root has 0–3 ancestors) on recording reference stores for source and target; each scenario runs once fault-free to learn its K node callbacks, then K more times with callback k = 1…K failing (exhaustive per scenario); trace (Begin/End/other with the failing one marked) and result are compared with the Lean bracket model, and errors.As must find the injected error; a quarter of the scenarios start from a selection on a leaf; every eighth runs on a schema with when conditions (their operand reads are callbacks that can fail); 15% of the targets are a nodeutil.Tee of two recording stores (bracket balance per node checked directly). non-trivial = faulted run whose failing callback is not the first; distinct by (scenario, k)"
+	c12refusedProbe(c)
+	c.Rule = "edit scenarios (strategy upsert/insert/update through the From and the Into entry points, replace and delete; generated schema and trees; entry point root / container / list entry so that the edit root has 0–3 ancestors) on recording reference stores for source and target; each scenario runs once fault-free to learn its K node callbacks, then K more times with callback k = 1…K failing (exhaustive per scenario); trace (Begin/End/other with the failing one marked) and result are compared with the Lean bracket model, and errors.As must find the injected error; a quarter of the scenarios start from a selection on a leaf; every eighth runs on a schema with when conditions (their operand reads are callbacks that can fail); 15% of the targets are a nodeutil.Tee of two recording stores (bracket balance per node checked directly). non-trivial = faulted run whose failing callback is not the first; distinct by (scenario, k); directed (c12refusedProbe): upsert / insert of a container that a condition hides once the target has made it, every callback of the refused run failing in turn (the delete that removes it again included): the error comes back wrapped"
 	c.Assumptions = append(c.Assumptions,
 		"the scenario tree is parsed from the fault-free trace of the real code: consecutive Begin events form one bubbling group",
 		"Choose callbacks do not occur in these scenarios (no choices in the generated schemas); the documented swallowing of target Choose errors is outside this check")
